@@ -455,20 +455,29 @@ SyntaxVisitor::Action Disambiguator::visitExpressionAsTypeReference(const Expres
 // Ambiguities //
 //-------------//
 
+/*
+ * An ambiguity is resolved through the member of the parent node that refers
+ * to it. One that is visited itself is the root of the tree (of a stand-alone
+ * expression or statement): it has no parent to be replaced in, and persists.
+ */
+
 SyntaxVisitor::Action Disambiguator::visitAmbiguousTypeNameOrExpressionAsTypeReference(
-        const AmbiguousTypeNameOrExpressionAsTypeReferenceSyntax*)
+        const AmbiguousTypeNameOrExpressionAsTypeReferenceSyntax* node)
 {
-    PSY_ASSERT_FAIL_1(return Action::Quit);
+    inconclusiveDisambigs_.push_back(node);
+    return Action::Skip;
 }
 
 SyntaxVisitor::Action Disambiguator::visitAmbiguousCastOrBinaryExpression(
-        const AmbiguousCastOrBinaryExpressionSyntax*)
+        const AmbiguousCastOrBinaryExpressionSyntax* node)
 {
-    PSY_ASSERT_FAIL_1(return Action::Quit);
+    inconclusiveDisambigs_.push_back(node);
+    return Action::Skip;
 }
 
 SyntaxVisitor::Action Disambiguator::visitAmbiguousExpressionOrDeclarationStatement(
-        const AmbiguousExpressionOrDeclarationStatementSyntax*)
+        const AmbiguousExpressionOrDeclarationStatementSyntax* node)
 {
-    PSY_ASSERT_FAIL_1(return Action::Quit);
+    inconclusiveDisambigs_.push_back(node);
+    return Action::Skip;
 }
